@@ -3,6 +3,10 @@ package node
 import (
 	"errors"
 	"fmt"
+	"io"
+	"strings"
+	"sync"
+	"sync/atomic"
 	"testing"
 	"time"
 
@@ -226,4 +230,132 @@ func debugCounters(p *sim.Pipe) ([]int, error) {
 		out = append(out, int(v.(*common.MessageDebug).TimeBootMs))
 	}
 	return out, nil
+}
+
+// TestC13BlockedWriterThenReadFailure: a link whose transport has stopped accepting writes (the writer sits inside
+// Write) and whose read side then fails is dead; it must be reported closed - it may not stay open, unreported,
+// discarding whatever is written to it - and the healthy link beside it keeps receiving everything. The link is a
+// serial endpoint (through the opener hook), whose Close releases a blocked Write the way a real device does.
+func TestC13BlockedWriterThenReadFailure(t *testing.T) {
+	rec := evid.New(t, "C13", "a serial link (hooked opener, in-memory device whose Close releases a blocked Write) beside a healthy custom link: the device stops accepting writes, 3..80 items are written to all links until the writer is parked inside Write, then the device's Read fails; within the bound a close event carrying the read error must arrive for that link, the healthy link must have received every item, and after the reconnect delay a fresh channel on a fresh device handle works again; non-trivial = always; distinct by hash of the parameters")
+	rec.Require("blocked-writer-then-read-failure")
+	c14Hook()
+	evid.Check(t, rec, evid.N(40, 150), func(t *rapid.T) {
+		drawNodeInit(t)
+		nitems := rapid.IntRange(3, 80).Draw(t, "items")
+		after := rapid.IntRange(1, 10).Draw(t, "after")
+		desc := fmt.Sprintf("items while blocked=%d, items after the fresh channel=%d", nitems, after)
+		err := watchdog(scenarioLimit, func() error { return runC13BlockedThenReadFail(nitems, after) })
+		if err != nil {
+			evid.ReplayNote("C13", "TestC13BlockedWriterThenReadFailure", desc+"\n"+err.Error())
+			t.Fatalf("%s\n%v", desc, err)
+		}
+		rec.Case(true, evid.HashS(desc), "blocked-writer-then-read-failure")
+		if rec.WantSample("blocked-writer-then-read-failure") {
+			rec.Sample("blocked-writer-then-read-failure", desc)
+		}
+	})
+}
+
+func runC13BlockedThenReadFail(nitems, after int) error {
+	dev := fmt.Sprintf("/dev/ttyC13_%d", atomic.AddInt64(&serialCounter, 1))
+	var mu sync.Mutex
+	var handles []*sim.Pipe
+	serialDevices.Store(dev, func() (io.ReadWriteCloser, error) {
+		mu.Lock()
+		defer mu.Unlock()
+		p := sim.NewPipe()
+		handles = append(handles, p)
+		return p, nil
+	})
+	defer serialDevices.Delete(dev)
+	healthy := sim.NewPipe()
+	n := &gomavlib.Node{Endpoints: []gomavlib.EndpointConf{gomavlib.EndpointSerial{Device: dev, Baud: 57600}, gomavlib.EndpointCustom{ReadWriteCloser: healthy}},
+		Dialect: ardupilotmega.Dialect, OutVersion: gomavlib.V2, OutSystemID: nodeSys, HeartbeatDisable: true}
+	if err := initNode(&n); err != nil {
+		return fmt.Errorf("BROKEN: %v", err)
+	}
+	rec := sim.StartRecorder(n, sim.Pacing{Kind: "fast"}, nil)
+	defer func() {
+		mu.Lock()
+		for _, h := range handles {
+			h.UnblockWrites()
+		}
+		mu.Unlock()
+		closeNode(n, bound) //nolint:errcheck
+		rec.WaitClosed(bound)
+	}()
+	opens := func(recs []sim.Rec) int {
+		k := 0
+		for _, r := range recs {
+			if _, ok := r.Ev.(*gomavlib.EventChannelOpen); ok {
+				k++
+			}
+		}
+		return k
+	}
+	if !rec.WaitFor(bound, func(recs []sim.Rec) bool { return opens(recs) >= 2 }) {
+		return fmt.Errorf("BROKEN: channels did not open")
+	}
+	mu.Lock()
+	if len(handles) < 2 { // Initialize probes the device once, the channel uses the second handle
+		mu.Unlock()
+		return fmt.Errorf("BROKEN: %d serial handles", len(handles))
+	}
+	devPipe := handles[len(handles)-1]
+	mu.Unlock()
+	devPipe.BlockWrites()
+	for k := 0; k < nitems; k++ {
+		if err := n.WriteMessageAll(&common.MessageDebug{TimeBootMs: uint32(k), Ind: 1}); err != nil {
+			return fmt.Errorf("write %d: %v", k, err)
+		}
+		if !healthy.WaitWrites(k+1-20, bound) {
+			return fmt.Errorf("the healthy link stopped receiving while the serial link is blocked")
+		}
+	}
+	if !devPipe.WaitParkedWriter(bound) {
+		return fmt.Errorf("BROKEN: the serial writer never entered Write")
+	}
+	readErr := errors.New("injected serial read error")
+	devPipe.FailReads(readErr)
+	var closeErr error
+	if !rec.WaitFor(bound, func(recs []sim.Rec) bool {
+		for _, r := range recs {
+			if c, ok := r.Ev.(*gomavlib.EventChannelClose); ok && c.Channel.String() != "custom" {
+				closeErr = c.Error
+				return true
+			}
+		}
+		return false
+	}) {
+		return fmt.Errorf("the serial link's writer is blocked inside Write and its Read failed, but no close event arrived within %v: the dead link stays open and unreported", bound)
+	}
+	if closeErr == nil || !strings.Contains(closeErr.Error(), "injected serial read error") {
+		return fmt.Errorf("the close event of the serial link says %v, the cause was the read error", closeErr)
+	}
+	if !healthy.WaitWrites(nitems, bound) {
+		return fmt.Errorf("the healthy link received %d of %d items", healthy.NumWrites(), nitems)
+	}
+	// a fresh channel on a fresh handle, and it works
+	if !rec.WaitFor(bound, func(recs []sim.Rec) bool { return opens(recs) >= 3 }) {
+		return fmt.Errorf("no fresh serial channel within %v after the dead one was closed", bound)
+	}
+	mu.Lock()
+	fresh := handles[len(handles)-1]
+	mu.Unlock()
+	if fresh == devPipe {
+		return fmt.Errorf("BROKEN: no fresh handle")
+	}
+	for k := 0; k < after; k++ {
+		if err := n.WriteMessageAll(&common.MessageDebug{TimeBootMs: uint32(1000 + k), Ind: 1}); err != nil {
+			return fmt.Errorf("write after reopen %d: %v", k, err)
+		}
+	}
+	if !fresh.WaitWrites(after, bound) {
+		return fmt.Errorf("the fresh serial channel received %d of %d items", fresh.NumWrites(), after)
+	}
+	if devPipe.CloseCount() < 1 {
+		return fmt.Errorf("the dead device handle was never closed")
+	}
+	return nil
 }
